@@ -394,6 +394,9 @@ type LockCommandData struct {
 }
 
 func NewLockCommandDataFromOriginBytes(data []byte) *LockCommandData {
+	if len(data) < 6 {
+		return nil
+	}
 	return &LockCommandData{data, data[4] >> 6, data[4] & 0x3f, data[5]}
 }
 
@@ -729,6 +732,9 @@ func (self *LockCommandData) DecodeLockCommand(lockCommand *LockCommand) error {
 		}
 		copy(buf[4:], self.Data[valueOffset+68:valueOffset+dataLen+68])
 		lockCommand.Data = NewLockCommandDataFromOriginBytes(buf)
+		if lockCommand.Data == nil {
+			return errors.New("data size error")
+		}
 	}
 	return nil
 }
